@@ -11,13 +11,15 @@ import (
 )
 
 var (
-	c28ShiftNegRe   = regexp.MustCompile(`\bshift '?-[0-9]*[1-9]`)
-	c28SubscriptRe  = regexp.MustCompile(`\$\{[!#]?[A-Za-z_][A-Za-z0-9_]*\[[^\]]`)
-	c28AssocLitRe   = regexp.MustCompile(`-[a-zA-Z]*A[a-zA-Z]*\b[^;\n]*=\(`)
-	c28EmptyArgRe   = regexp.MustCompile(`(''|""|[A-Za-z_]=([ ;\n]|$))`)
-	c28ParamAtOpRe  = regexp.MustCompile(`\$\{[^}]*@`)
-	c28TestMatchRe  = regexp.MustCompile(`(?m)(^|[ ;])(\[|test) .*(=|!=)`)
-	c28BareOptionRe = regexp.MustCompile(`Params\(("[^"]*",)*"[-+]o"(\)|,"")`)
+	c28ShiftNegRe     = regexp.MustCompile(`\bshift '?-[0-9]*[1-9]`)
+	c28SubscriptRe    = regexp.MustCompile(`\$\{[!#]?[A-Za-z_][A-Za-z0-9_]*\[[^\]]`)
+	c28AssocLitRe     = regexp.MustCompile(`-[a-zA-Z]*A[a-zA-Z]*\b[^;\n]*=\(`)
+	c28EmptyArgRe     = regexp.MustCompile(`(''|""|[A-Za-z_]=['"]?([ ;\n]|$))`)
+	c28ParamAtOpRe    = regexp.MustCompile(`\$\{[^}]*@`)
+	c28TestMatchRe    = regexp.MustCompile(`(?m)(^|[ ;])(\[|test) .*(=|!=)`)
+	c28IndexBeyondRe  = regexp.MustCompile(`index out of range \[\d+\] with length \d+`)
+	c28NamerefEmptyRe = regexp.MustCompile(`(?s)-n\b.*[A-Za-z_]=['"]?([ ;\n]|$).*\+=\(|\+=\(.*-n\b.*[A-Za-z_]=['"]?([ ;\n]|$)`)
+	c28BareOptionRe   = regexp.MustCompile(`Params\(("[^"]*",)*"[-+]o"(\)|,"")`)
 )
 
 func init() {
@@ -34,7 +36,7 @@ func init() {
 		}},
 		{"getopts-stale-char-index", func(t c28Case, msg, frame string) bool {
 			// the position inside a group of option letters survives a change of the arguments
-			return frame == "interp.(*getopts).next" && strings.Contains(msg, "index out of range") && strings.Contains(src(t), "getopts")
+			return frame == "interp.(*getopts).next" && c28IndexBeyondRe.MatchString(msg) && strings.Contains(src(t), "getopts")
 		}},
 		{"assoc-subscript-not-a-word", func(t c28Case, msg, frame string) bool {
 			// ${x[-1]}, ${x[1+2]}, ${x[i]:=v} on an associative array: the subscript was parsed as arithmetic
@@ -49,6 +51,10 @@ func init() {
 		{"empty-variable-name", func(t c28Case, msg, frame string) bool {
 			// unset '', test -v '', a nameref with an empty target (declare -n r=; echo $r)
 			return frame == "interp.(*Runner).lookupVar" && msg == "variable name must not be empty" && c28EmptyArgRe.MatchString(src(t))
+		}},
+		{"nameref-empty-target-array-append", func(t c28Case, msg, frame string) bool {
+			// declare -n r=; r+=(1): appending an array to a nameref that has no target
+			return frame == "interp.(*Runner).assignVal" && msg == "unexpected conversion of kind 2" && c28NamerefEmptyRe.MatchString(src(t))
 		}},
 		{"param-at-operator-unknown", func(t c28Case, msg, frame string) bool {
 			// ${x@#} and friends reach the default case of the @ operators
